@@ -46,7 +46,7 @@ fn affordable(levels: &[Level]) -> bool {
 
 /// Signing a blob through every entry point: no panic; Err => no callback; Ok => verifies under the
 /// model public key of the decoded parameters and the callback got the model successor.
-fn exercise_blob(h: HashId, blob: &[u8], what: &str) -> Result<String, (String, String)> {
+pub fn exercise_blob(h: HashId, blob: &[u8], what: &str) -> Result<String, (String, String)> {
     let m = Model::rfc(h);
     let n = h.n();
     let msg = b"c11 message".to_vec();
@@ -154,7 +154,7 @@ fn exercise_blob(h: HashId, blob: &[u8], what: &str) -> Result<String, (String, 
     Ok(outcome)
 }
 
-fn aux_exercise(h: HashId, aux_bytes: Vec<u8>, keygen: bool, what: &str) -> Result<String, (String, String)> {
+pub fn aux_exercise(h: HashId, aux_bytes: Vec<u8>, keygen: bool, what: &str) -> Result<String, (String, String)> {
     let m = Model::rfc(h);
     let n = h.n();
     let levels: Vec<Level> = vec![(4, 5), (8, 2)];
@@ -335,6 +335,7 @@ pub fn run(ctx: &Ctx) {
     }
     ctx.enumerate("enumerated_faults", items.len() as u64, true, |i| items[i as usize].clone(), check);
 
+    crate::props::common::fuzz_regress(ctx, "fz_signer");
     let cases = ctx.tier.pick(10_000u32, 150_000u32);
     ctx.random(
         "random_faults",
